@@ -31,8 +31,17 @@ EXPLANATION = (
     "language and round-trip every Python keyword; R5.5 the fixpoint witness "
     "canonical_pyi is parse -> canonical order -> verify -> Print, and "
     "generate_pyi prints exactly the verified, canonically ordered AST; R5.6 "
-    "method names for which the printer omits @staticmethod/@classmethod are "
-    "names for which the reader infers that kind; R5.7 class keywords "
+    "two name sets are extracted per method kind K and must be EQUAL: the "
+    "names for which VisitFunction omits @staticmethod/@classmethod (negative "
+    "name literals `!=` / `not in <foldable collection>` in the path "
+    "condition of the `decorators +=`, over all enclosing and elif-residue "
+    "guards) and the names for which merge_method_signatures infers K without "
+    "a decorator (`name == lit` / `name in <literal or module constant>` "
+    "disjuncts of the kind chain, earlier arms winning).  printer-only name: "
+    "a K method is read back as a plain method; reader-only name: an "
+    "undecorated method (kind METHOD from the inferencer) is re-read as K and "
+    "re-printed with the decorator.  Not decided by R5.6: whether output.py "
+    "emits kind K for those names in the first place; R5.7 class keywords "
     "output.py emits are accepted by classdef.get_keywords; R5.8 "
     "TypeVar/ParamSpec constructor names and keyword arguments the printer "
     "writes are accepted by the reader; R5.9 decisions the printer takes on "
@@ -358,13 +367,14 @@ def printer_decorators(ctx):
         spelling = _const_str(parts[1].args[0])
         typing_dec = True
       g = flow.guards(pmod.parent, n, stop=fn)
-      if not g or not g[0][1]:
+      if not any(pol for _, pol in g):
         raise AnalysisError(
             f"VisitFunction: @{spelling} is not under a positive guard")
-      why = _classify_guard(g[0][0], name_vars)
+      why = _classify_guard(g, name_vars, pmod)
       if why is None:
         raise AnalysisError(
-            f"VisitFunction: guard of @{spelling} not understood: {src(g[0][0])}")
+            f"VisitFunction: guard of @{spelling} not understood: "
+            + " / ".join(("" if pol else "not ") + src(t) for t, pol in g))
       out.append({"spelling": spelling, "typing": typing_dec, "why": why,
                   "line": n.lineno})
     if not out:
@@ -373,28 +383,102 @@ def printer_decorators(ctx):
   return ctx.memo("c05.printer_decorators", build)
 
 
-def _classify_guard(test, name_vars):
-  conj = test.values if isinstance(test, ast.BoolOp) and \
-      isinstance(test.op, ast.And) else [test]
-  kind = None
-  exempt = []
-  others = []
-  for c in conj:
-    if isinstance(c, ast.Compare) and len(c.ops) == 1:
-      l, r = dotted(c.left), c.comparators[0]
-      if isinstance(c.ops[0], ast.Eq) and l == "node.kind" and \
-          (dotted(r) or "").startswith("pytd.MethodKind."):
-        kind = dotted(r).rsplit(".", 1)[1]
-        continue
-      if isinstance(c.ops[0], ast.NotEq) and l in name_vars and \
-          _const_str(r) is not None:
-        exempt.append(_const_str(r))
-        continue
-    others.append(c)
-  if kind is not None:
-    return ("kind", kind, exempt) if not others else None
-  if len(conj) != 1:
+def _name_atom(c, name_vars, mod):
+  """(set of names, polarity) for `N == lit`, `N != lit`, `N in S`,
+  `N not in S` with N a function-name variable and S a foldable collection
+  of strings (literal or module constant); else None."""
+  if not (isinstance(c, ast.Compare) and len(c.ops) == 1):
     return None
+  op, l, r = c.ops[0], c.left, c.comparators[0]
+  if isinstance(op, (ast.Eq, ast.NotEq)):
+    if dotted(r) in name_vars and _const_str(l) is not None:
+      l, r = r, l
+    if dotted(l) in name_vars and _const_str(r) is not None:
+      return frozenset([_const_str(r)]), isinstance(op, ast.Eq)
+    return None
+  if isinstance(op, (ast.In, ast.NotIn)) and dotted(l) in name_vars:
+    vals = try_fold(r, mod=mod)
+    if isinstance(vals, (tuple, list, set, frozenset)) and vals and \
+        all(isinstance(v, str) for v in vals):
+      return frozenset(vals), isinstance(op, ast.In)
+    if isinstance(vals, dict) and vals and all(isinstance(v, str) for v in vals):
+      return frozenset(vals), isinstance(op, ast.In)
+    raise AnalysisError(
+        f"name test against a collection that does not fold: {src(c)}")
+  return None
+
+
+def _kind_atom(c):
+  if isinstance(c, ast.Compare) and len(c.ops) == 1 and \
+      isinstance(c.ops[0], (ast.Eq, ast.Is)):
+    l, r = dotted(c.left), dotted(c.comparators[0])
+    if r == "node.kind":
+      l, r = r, l
+    if l == "node.kind" and (r or "").startswith("pytd.MethodKind."):
+      return r.rsplit(".", 1)[1]
+  return None
+
+
+def _classify_guard(guards, name_vars, mod=None):
+  """The path condition of one `decorators += ...` as a decorator reason.
+
+  `guards` is flow.guards() output (or, for convenience, a bare test).  The
+  condition is a conjunction of literals: positive tests are flattened over
+  `and`, negated tests over `or` (De Morgan).  A negated conjunction (the
+  `elif` residue of an earlier arm) is redundant when it contains a
+  `node.kind == K'` for a kind other than the one this path tests positively;
+  any other negated conjunction that mentions the function name is outside
+  the fragment."""
+  if isinstance(guards, ast.AST):
+    guards = [(guards, True)]
+  pos, neg_conj = [], []   # [(expr, polarity)], [[expr, ...]]
+  def add(t, pol):
+    while isinstance(t, ast.UnaryOp) and isinstance(t.op, ast.Not):
+      t, pol = t.operand, not pol
+    if isinstance(t, ast.BoolOp):
+      if isinstance(t.op, ast.And) == pol:
+        for v in t.values:
+          add(v, pol)
+      elif not pol:
+        neg_conj.append(list(t.values))
+      else:
+        pos.append((t, True))   # a positive disjunction: opaque
+    else:
+      pos.append((t, pol))
+  for t, pol in guards:
+    add(t, pol)
+  kind = None
+  exempt = set()
+  others = []
+  for t, pol in pos:
+    k = _kind_atom(t)
+    if k is not None:
+      if pol:
+        if kind not in (None, k):
+          return None
+        kind = k
+      continue  # `kind != K'`: no information about the name
+    na = _name_atom(t, name_vars, mod)
+    if na is not None:
+      names, npol = na
+      if npol == pol:
+        return None  # decorator only FOR some names: not an exemption
+      exempt |= names
+      continue
+    others.append((t, pol))
+  for conj in neg_conj:
+    ks = [_kind_atom(c) for c in conj]
+    if kind is not None and any(k is not None and k != kind for k in ks):
+      continue
+    if any(k is not None for k in ks) or any(
+        dotted(n) in name_vars for c in conj for n in ast.walk(c)):
+      return None
+    others.append((conj, False))
+  if kind is not None:
+    return ("kind", kind, sorted(exempt)) if not others else None
+  if exempt or len(others) != 1 or not others[0][1]:
+    return None
+  test = others[0][0]
   d = dotted(test)
   if d and d.startswith("node.") and d[len("node."):] in _FLAG_ATTRS:
     return ("flag", _FLAG_ATTRS[d[len("node."):]])
@@ -459,10 +543,15 @@ def reader_kinds(ctx):
       for d in disj:
         if isinstance(d, ast.Name):
           flag_to_kind[d.id] = k
-        elif isinstance(d, ast.Compare) and len(d.ops) == 1 and \
-            isinstance(d.ops[0], ast.Eq) and dotted(d.left) == "name" and \
-            _const_str(d.comparators[0]) is not None:
-          implicit.setdefault(k, []).append(_const_str(d.comparators[0]))
+        elif (na := _name_atom(d, {"name", "fn.name"}, mod)) is not None:
+          names, pol = na
+          if not pol:
+            raise AnalysisError(
+                f"merge_method_signatures: negative name test in the kind "
+                f"chain not understood: {src(d)}")
+          # an earlier arm wins: the chain is evaluated top-down
+          taken = {x for v in implicit.values() for x in v}
+          implicit.setdefault(k, []).extend(sorted(names - taken))
         elif dotted(d) == "fn.properties":
           prop_kind = k
         else:
@@ -700,23 +789,48 @@ def r5_3(ctx):
 
 @rule("R5.6", "C05", floor=2)
 def r5_6(ctx):
-  """Names whose kind decorator the printer omits get that kind implicitly."""
+  """The names for which the reader infers a method kind without a decorator
+  are exactly the names for which the printer omits that kind's decorator."""
   decs = printer_decorators(ctx)
   kinds = reader_kinds(ctx)
-  n = 0
+  printer = {}   # kind -> (spelling, line, exempt names)
   for d in decs:
     if d["why"][0] != "kind":
       continue
     _, k, exempt = d["why"]
-    for name in exempt:
-      n += 1
-      imp = kinds["implicit"].get(k, [])
-      ctx.check(name in imp, f"implicit:{k}:{name}", PRINTER, d["line"],
-                f"printer omits @{d['spelling']} on {name!r} but "
-                f"merge_method_signatures only infers MethodKind.{k} for {imp}",
-                {"kind": k, "printer_exempt": name, "reader_implicit": imp})
-  if n == 0:
-    raise AnalysisError("VisitFunction has no name exemptions any more")
+    if k in printer:
+      raise AnalysisError(f"VisitFunction: two decorator arms for MethodKind.{k}")
+    printer[k] = (d["spelling"], d["line"], set(exempt))
+  reader = {k: set(v) for k, v in kinds["implicit"].items() if v}
+  if not any(p[2] for p in printer.values()) and not reader:
+    raise AnalysisError("neither VisitFunction nor merge_method_signatures "
+                        "treats any method name specially any more")
+  for k in sorted(set(reader) - set(printer)):
+    raise AnalysisError(
+        f"merge_method_signatures infers MethodKind.{k} from the name for "
+        f"{sorted(reader[k])} but VisitFunction has no decorator arm for {k}")
+  for k in sorted(printer):
+    sp, line, exempt = printer[k]
+    imp = reader.get(k, set())
+    for name in sorted(exempt | imp):
+      facts = {"kind": k, "printer_exempt": sorted(exempt),
+               "reader_implicit": sorted(imp)}
+      if name in exempt and name not in imp:
+        ctx.bad(f"implicit:{k}:{name}", PRINTER, line,
+                f"printer omits @{sp} on {name!r} but "
+                f"merge_method_signatures only infers MethodKind.{k} for "
+                f"{sorted(imp)}: a {k} {name!r} is read back as a plain method",
+                facts)
+      elif name in imp and name not in exempt:
+        ctx.bad(f"implicit:{k}:{name}", CODEGEN_FN, kinds["line"],
+                f"merge_method_signatures makes every {name!r} a {k} from its "
+                f"name alone, but the printer omits @{sp} only for "
+                f"{sorted(exempt)}: an undecorated {name!r} (kind METHOD, e.g. "
+                "from the inferencer) is re-read as "
+                f"{k} and re-printed WITH @{sp}, so print/parse is not a "
+                "fixed point", facts)
+      else:
+        ctx.ok(f"implicit:{k}:{name}", PRINTER, line, facts)
 
 
 # -- R5.4 ------------------------------------------------------------------------
@@ -1824,10 +1938,43 @@ VARIANTS = [
      "expect": "fire",
      "old": "        and function_name != \"__init_subclass__\"",
      "new": "        and function_name != \"__init_subclass__\"\n        and function_name != \"__class_getitem__\""},
-    {"name": "twin-reader-infers-more", "rule": "R5.6", "file": CODEGEN_FN,
-     "expect": "silent",
+    # (formerly listed as a benign twin; seeded C05-r2m2 showed it is not)
+    {"name": "reader-infers-more-than-printer-omits", "rule": "R5.6", "file": CODEGEN_FN,
+     "expect": "fire",
      "old": "    elif name == \"__init_subclass__\" or is_classmethod:",
      "new": "    elif name == \"__init_subclass__\" or name == \"__class_getitem__\" or is_classmethod:"},
+    {"name": "seeded-C05-r2m2", "rule": "R5.6", "patch": "seeded/C05-r2m2/patch.diff",
+     "expect": "fire"},
+    {"name": "reader-infers-static-call-from-a-tuple", "rule": "R5.6", "file": CODEGEN_FN,
+     "expect": "fire",
+     "old": "    if name == \"__new__\" or is_staticmethod:",
+     "new": "    if name in (\"__new__\", \"__call__\") or is_staticmethod:"},
+    {"name": "printer-exempts-through-not-in", "rule": "R5.6", "file": PRINTER,
+     "expect": "fire",
+     "old": "    if node.kind == pytd.MethodKind.STATICMETHOD and function_name != \"__new__\":",
+     "new": "    if node.kind == pytd.MethodKind.STATICMETHOD and function_name not in (\"__new__\", \"__call__\"):"},
+    {"name": "twin-both-sides-respelled-with-collections", "rule": "R5.6", "expect": "silent",
+     "edits": [
+         (CODEGEN_FN, "def merge_method_signatures(\n",
+          "_IMPLICIT_CLASSMETHODS = frozenset({\"__init_subclass__\"})\n\n\n"
+          "def merge_method_signatures(\n"),
+         (CODEGEN_FN, "    elif name == \"__init_subclass__\" or is_classmethod:",
+          "    elif name in _IMPLICIT_CLASSMETHODS or is_classmethod:"),
+         (PRINTER, "        and function_name != \"__init_subclass__\"",
+          "        and function_name not in (\"__init_subclass__\",)")]},
+    {"name": "twin-reader-names-in-a-module-constant", "rule": "R5.6", "expect": "silent",
+     "edits": [
+         (CODEGEN_FN, "def merge_method_signatures(\n",
+          "_STATIC_BY_NAME = (\"__new__\",)\n\n\ndef merge_method_signatures(\n"),
+         (CODEGEN_FN, "    if name == \"__new__\" or is_staticmethod:",
+          "    if is_staticmethod or name in _STATIC_BY_NAME:")]},
+    {"name": "twin-printer-nested-exemption", "rule": "R5.6", "file": PRINTER,
+     "expect": "silent",
+     "old": "    if node.kind == pytd.MethodKind.STATICMETHOD and function_name != \"__new__\":\n"
+            "      decorators += \"@staticmethod\\n\"\n    elif (",
+     "new": "    if node.kind == pytd.MethodKind.STATICMETHOD:\n"
+            "      if not function_name == \"__new__\":\n"
+            "        decorators += \"@staticmethod\\n\"\n    elif ("},
     # R5.4
     {"name": "mangle-prefix-changed-one-side", "rule": "R5.4", "file": PARSER,
      "expect": "fire", "old": "  return f\"__KW_{kw}__\"", "new": "  return f\"__KEYWORD_{kw}__\""},
